@@ -212,6 +212,17 @@ def check_registrations(_):
     c = hotxlfp.Parser()
     if outcome(c, 'onlya') != (('N',), '#NAME?') or outcome(c, 'TRUE') != (('B', 1), None):
         out.append(('a parser created after registrations on another one sees them', None, 'fresh bindings', repr((outcome(c, 'onlya'), outcome(c, 'TRUE')))))
+    # error values made by one parser's host (a code nobody defines) do not teach other parsers new error codes
+    from hotxlfp.formulas import error as _error
+    m1, m2 = hotxlfp.Parser(), hotxlfp.Parser()
+    before = [outcome(m2, f) for f in ('#BUSY!', '#BUSY!+1', 'BUSYFN()', 'IFERROR(#BUSY!,1)')]
+    m1.set_function('BUSYFN', lambda *x: _error.XLError('#BUSY!'))
+    m1.set_variable('busyv', _error.XLError('#BUSY!'))
+    for f in ('BUSYFN()', 'busyv', 'BUSYFN()+1', 'IFERROR(BUSYFN(),1)', 'SUM(busyv,1)'):
+        outcome(m1, f)
+    after = [outcome(m2, f) for f in ('#BUSY!', '#BUSY!+1', 'BUSYFN()', 'IFERROR(#BUSY!,1)')]
+    if after != before:
+        out.append(('another parser produced XLError(#BUSY!) values in between: #BUSY!, #BUSY!+1, BUSYFN(), IFERROR(#BUSY!,1)', None, repr(before), repr(after)))
     # one callback object subscribed on several parsers (on / once), fired or unsubscribed on one of them: the
     # subscriptions on the others are untouched
     def fill(cell, done):
